@@ -68,7 +68,7 @@ NumLines(s) == Cardinality({i \in 1..Len(s) : LineStart(s, i)})
 (* Fault kinds *)
 
 PosKinds == {"truncate", "nonnumeric", "negative", "zero", "one", "hugecount", "overflow", "nan", "inf",
-             "missing", "extra", "long", "dupline", "dropline", "emptytok", "nearprev", "sameprev", "flood"}
+             "missing", "extra", "long", "dupline", "dropline", "emptytok", "nearprev", "sameprev", "flood", "bigcount", "widecount"}
 DocKinds == {"empty", "wsonly", "crlf", "nofinalnl", "unknownopt"}
 
 (* Roles for which a huge-but-representable number is a legitimate (if expensive) *)
@@ -82,6 +82,8 @@ FaultText(k, t) ==
     [] k = "zero"       -> "0"
     [] k = "one"        -> "1"
     [] k = "hugecount"  -> IF cum THEN "^2000000000" ELSE "2000000000"
+    [] k = "bigcount"   -> "30000"        \* large but inside the ranges the loaders accept: whatever is sized from it (squared!) before
+    [] k = "widecount"  -> "65536"        \* the data is seen must stay bounded; 65536^2 wraps a 32-bit product to 0
     [] k = "overflow"   -> IF cum THEN "^99999999999999999999"
                            ELSE IF Kind(t) = "real" THEN "1e999" ELSE "99999999999999999999"
     [] k = "nan"        -> "nan"
@@ -93,7 +95,7 @@ FaultText(k, t) ==
     [] OTHER            -> Text(t)
 
 Rewrites == {"nonnumeric", "negative", "zero", "one", "hugecount", "overflow", "nan", "inf", "long", "emptytok",
-             "nearprev", "sameprev"}
+             "nearprev", "sameprev", "bigcount", "widecount"}
 
 (* Is fault k injectable at token i of the valid document of format f ? *)
 Applicable(f, k, i) ==
@@ -105,6 +107,7 @@ Applicable(f, k, i) ==
           [] k \in {"nonnumeric", "negative", "overflow"} -> IsNum(t) \/ Kind(t) = "cum"
           [] k \in {"zero", "one"} -> Kind(t) = "count"
           [] k = "hugecount" -> Kind(t) \in {"int", "count", "cum"} /\ Role(t) \notin LegitHugeRoles
+          [] k \in {"bigcount", "widecount"} -> Kind(t) = "count" /\ Role(t) \notin LegitHugeRoles
           [] k \in {"nan", "inf"} -> Kind(t) = "real"
           [] k \in {"nearprev", "sameprev"} -> Kind(t) = "real" /\ i > 1 /\ Kind(s[i - 1]) = "real"
           [] k \in {"missing", "extra", "long"} -> ~IsNl(t)
